@@ -839,13 +839,15 @@ def world_tour(tier, seed, features=()):
     t0 = time.time()
     binp = build_harness(tuple(features), False)
     if tier == "quick":
-        consts = dict(MaxCap=6, MaxSlotVer=3, MaxArchVer=4, InitCaps="{0, 2}", MaxOps=6, MaxLen=3)
+        # with the logs and the destroying loops the events variant has 3.5 times the transitions: one operation less
+        consts = dict(MaxCap=6, MaxSlotVer=3, MaxArchVer=4, InitCaps="{0, 2}", MaxOps=5 if events else 6, MaxLen=3)
         caps, archs = [0, 2], [1]
     else:
         consts = dict(MaxCap=6, MaxSlotVer=3, MaxArchVer=4, InitCaps="{0, 1, 2}", MaxOps=7 if events else 8, MaxLen=3)
         caps, archs = [0, 1, 2], [0, 1, 2, 3]
     # with the events feature the model carries the created / destroyed logs and clear_events
     consts["Events"] = "TRUE" if events else "FALSE"
+    consts["Loops"] = "TRUE"
     edges_all, st = T.export_world_edges(consts)
     edges = [e for e in edges_all if T.world_real_edge(e)]
     paths, unreachable = T.plan_world_paths(edges, caps, events=events)
